@@ -180,7 +180,7 @@ Definition sdb_T (d : sdb) : T :=
      tbl_T (t_state d); tbl_T (t_assets d); tbl_T (t_ptx d); tbl_T (t_mdata d); tbl_T (t_mmeta d)].
 
 (* input  (enc ge gi latest da src-tables _seed)
-   observed (ok dst-tables last digests-ok):  ok = the regenesis succeeded;
+   observed (ok dst-tables last digests-ok columns):  ok = the regenesis succeeded;
      last = (height da) read back from the snapshot; digests-ok: every compared column has the
      same digest before and after *)
 Definition main39 (input observed : T) : T :=
@@ -191,13 +191,13 @@ Definition main39 (input observed : T) : T :=
           if (ge =? 0) || (gi =? 0) then tErr 4 else
           let r := regenesis enc (N.to_nat ge) (N.to_nat gi) latest da src in
           (* last block data and digests are the implementation's *)
-          let tail := match observed with L [_; _; l; dg] => [l; dg] | _ => [L []; L []] end in
+          let tail := match observed with L [_; _; l; dg; cols] => [l; dg; cols] | _ => [L []; L []; L []] end in
           let model := match r with
                        | Some d => L (tB true :: sdb_T d :: tail)
                        | None => L (tB false :: sdb_T empty_sdb :: tail)
                        end in
           let pc := match observed with
-                    | L [ok; dst; L [oh; oda]; dg] =>
+                    | L [ok; dst; L [oh; oda]; dg; _] =>
                         match getB ok, T_sdb dst, getN oh, getN oda, getB dg with
                         | Some true, Some dst, Some oh, Some oda, Some dg =>
                             c39_code src dst ((oh =? latest) && (oda =? da)) dg
